@@ -14,7 +14,9 @@ CONSTANT MaxLen
 Dom == {IntV(1), Str(<<49>>), Bool(TRUE), Arr(<<IntV(1)>>), Obj(<< <<ka, IntV(1)>> >>)}
 Dom2 == Dom \cup {Obj(<< <<ka, Str(<<49>>)>> >>), IntV(2), Arr(<<Str(<<49>>)>>)}
 Arrs(D, n) == {Arr(f) : f \in [1..n -> D]}
-AllArrs == UNION {Arrs(Dom, n) : n \in 0..MaxLen} \cup Arrs(Dom2, 2)
+\* a composite member next to the string that spells it (its JSON text, its $string form): never the same value
+Twins == {Arr(<<IntV(1)>>), Str(<<91, 49, 93>>), Obj(<< <<ka, IntV(1)>> >>), Str(<<123, 34, 97, 34, 58, 49, 125>>), Str(<<123, 34, 97, 34, 58, 32, 49, 125>>), Arr(<<IntV(1), IntV(2)>>), Str(<<91, 49, 44, 50, 93>>), Str(<<91, 49, 44, 32, 50, 93>>), Str(<<49>>)}
+AllArrs == UNION {Arrs(Dom, n) : n \in 0..MaxLen} \cup Arrs(Dom2, 2) \cup Arrs(Twins, 2)
 NumDom == {IntV(0), IntV(1), IntV(0 - 2), Num(1, 2), Num(0 - 3, 2), IntV(7)}
 NumArrs == UNION {Arrs(NumDom, n) : n \in 0..MaxLen}
 Scalars == {IntV(3), Str(kx), Bool(FALSE), Obj(<< <<ka, IntV(1)>> >>), Obj(<<>>), Obj(<< <<ka, IntV(1)>>, <<kb, IntV(2)>> >>), Str(<<>>), IntV(0)}    \* a non-array counts as one member, whatever it contains
